@@ -20,9 +20,9 @@ def mcfg(name, gen=False, maxops=6, procs=(1, 2), slots=(1, 2), stores=(1,), fix
 
 
 class Session:
-    def __init__(self, root, work, kind, stores=(1, 2), alias=()):
+    def __init__(self, root, work, kind, stores=(1, 2), alias=(), verbose=0):
         env = dict(os.environ, PYTHONPATH=os.environ.get("VERIF_REPO", "/repo"), PYTHONHASHSEED="0", PYTHONDONTWRITEBYTECODE="1")
-        self.p = subprocess.Popen([PY, "-u", SESSION, json.dumps({"root": root, "work": work, "kind": kind, "stores": list(stores), "alias": list(alias), "log": os.path.join(root, "..", "exec.log")})], env=env,
+        self.p = subprocess.Popen([PY, "-u", SESSION, json.dumps({"root": root, "work": work, "kind": kind, "stores": list(stores), "alias": list(alias), "verbose": verbose, "log": os.path.join(root, "..", "exec.log")})], env=env,
                                   stdin=subprocess.PIPE, stdout=subprocess.PIPE, stderr=subprocess.PIPE, text=True, bufsize=1)
 
     def do(self, op):
@@ -63,7 +63,7 @@ def replay(args):
         if p not in sessions:
             nsess[0] += 1
             w = os.path.join(d, "work%d" % nsess[0]); os.makedirs(w)
-            sessions[p] = Session(root, w, kind, alias=alias)
+            sessions[p] = Session(root, w, kind, alias=alias, verbose=(0, 1, 11)[hid % 3])
         return sessions[p]
     try:
         for n, e in enumerate(hist):
